@@ -79,6 +79,58 @@ func measure(env container.Environment) map[string]any {
 
 var devNull, selfExe *os.File
 
+// shapedEnv builds the environment of a history.  Shapes other than "plain" put mount points below the tmpfs mounts, the way
+// services bind read-only data or a store below the work directory; Reset of such an environment removes what it can and
+// reports what it cannot remove (a failing environment operation that can be repeated any number of times).
+func shapedEnv(scratch, shape, token string) (container.Environment, error) {
+	if shape == "" || shape == "plain" {
+		return hx.NewEnv(scratch, nil)
+	}
+	mk := func(name string) (string, error) {
+		d := scratch + "/" + name + "-" + token
+		if err := os.MkdirAll(d+"/sub", 0755); err != nil {
+			return "", err
+		}
+		for _, f := range []string{"/input.txt", "/sub/more.txt"} {
+			if err := os.WriteFile(d+f, []byte("data\n"), 0644); err != nil {
+				return "", err
+			}
+		}
+		return d, nil
+	}
+	return hx.NewEnvWith(scratch, nil, func(b *container.Builder) {
+		mb := mount.Builder{Mounts: b.Mounts}
+		switch shape {
+		case "robind":
+			// read-only data below the work directory, a device node in /dev
+			if d, err := mk("data"); err == nil {
+				mb.WithBind(d, "w/data", true)
+			}
+			mb.WithBind("/dev/null", "dev/null", false)
+		case "nested_tmpfs":
+			// a tmpfs below the second tmpfs (the reset of the first tmpfs succeeds, that of the second fails)
+			mb.WithTmpfs("tmp/sub", "size=1m,nr_inodes=64")
+			mb.WithBind("/dev/zero", "dev/zero", false)
+		case "deep_bind":
+			// a writable store bound some levels below the work directory, a device node bound below the work directory
+			if d, err := mk("store"); err == nil {
+				mb.WithBind(d, "w/a/b/store", false)
+			}
+			mb.WithBind("/dev/null", "w/null", false)
+		}
+		b.Mounts = mb.Mounts
+	})
+}
+
+// objects of every kind a path in the container can name, planted by a program of the container
+func plantArgs(i int) []string {
+	n := fmt.Sprint(i % 5)
+	return []string{"/vb/probe_target", "plant",
+		"dir", "/w/d1", "-", "dir", "/w/d1/in" + n, "-", "reg", "/w/d1/in" + n + "/f", "x", "fifo", "/w/ff", "-", "reg", "/w/reg", "content",
+		"sym", "/w/sl", "/w/reg", "sym", "/w/sld", "/w/d1", "sym", "/w/dangling", "/w/nothing", "sock", "/w/sock", "-",
+		"reg", "/tmp/t" + n, "x", "dir", "/tmp/td", "-", "fifo", "/tmp/td/ff", "-", "many", "/tmp/td", "7"}
+}
+
 func main() {
 	hx.Init()
 	scratch := os.Getenv("VERIF_SCRATCH")
@@ -87,13 +139,15 @@ func main() {
 	limit := runner.Limit{TimeLimit: 20 * time.Second, MemoryLimit: runner.Size(1 << 30)}
 	hx.Cases(func(c map[string]any) map[string]any {
 		token := c["token"].(string)
+		t0 := time.Now()
 		var env container.Environment
 		var err error
 		keepEnv := c["shared_env"] == true
 		if keepEnv {
-			env, err = hx.NewEnv(scratch, nil)
+			shape, _ := c["env_shape"].(string)
+			env, err = shapedEnv(scratch, shape, token)
 			if err != nil {
-				return map[string]any{"harness_err": err.Error()}
+				return map[string]any{"harness_err": "environment of shape " + shape + ": " + err.Error()}
 			}
 			env.Ping()
 		}
@@ -102,6 +156,12 @@ func main() {
 		base := measure(env)
 		log := []string{}
 		leftAfterRun, leftAfterWhich := 0, ""
+		// descriptors of the host after every operation (no settling: only used to say which operation of a history
+		// that did not return to baseline raised the count for good), and descriptors of the container init measured
+		// once the init has answered a ping after the operation (the init handles one request at a time: the operation
+		// is over for it, whatever became of it)
+		hostTrace, initTrace := []int{}, []int{}
+		initDev := []any{}
 		for i, raw := range c["ops"].([]any) {
 			op := raw.(map[string]any)
 			args := []string{}
@@ -115,6 +175,13 @@ func main() {
 				ctx, cancel = context.Background(), func() {}
 			}
 			var res runner.Result
+			opNote := ""
+			envOp := env != nil && (op["kind"] == "open" || op["kind"] == "open_kinds" || op["kind"] == "reset")
+			initBefore := -1
+			if envOp {
+				env.Ping()
+				initBefore = nfds(container.InitPidVerif(env))
+			}
 			okRet := hx.Guard(15*time.Second, func() {
 				switch op["kind"].(string) {
 				case "ptrace":
@@ -148,6 +215,54 @@ func main() {
 						p.Args = args[1:]
 					}
 					res = env.Execve(ctx, p)
+				case "open_kinds":
+					// a batch of opens whose targets are of every kind (directories, device nodes, fifos, links, sockets,
+					// missing and regular files), refused and accepted entries in any position
+					if op["plant"] != false {
+						env.Execve(ctx, container.ExecveParam{Args: plantArgs(i), Env: []string{"PATH=/usr/bin:/bin"}})
+					}
+					var cmds []container.OpenCmd
+					for _, t := range op["targets"].([]any) {
+						tm := t.(map[string]any)
+						cmds = append(cmds, container.OpenCmd{Path: tm["path"].(string), Flag: int(hx.Int(tm["flag"])), Perm: 0600, MkdirAll: tm["mkdir_all"] == true})
+					}
+					rs, oerr := env.Open(cmds)
+					pat := ""
+					var why []string
+					for _, x := range rs {
+						if x.File != nil {
+							x.File.Close()
+							pat += "o"
+						} else {
+							pat += "e"
+							if x.Err != nil {
+								why = append(why, x.Err.Error())
+							}
+						}
+					}
+					if len(why) > 0 {
+						pat += " refused: " + strings.Join(why, "; ")
+					}
+					if oerr != nil {
+						pat += "!" + oerr.Error()
+					}
+					opNote = pat
+				case "reset":
+					// the environment is returned to its pool: Reset after a program left files of every kind behind.  With mount
+					// points below the tmpfs mounts the reset fails (and fails again the next time)
+					if op["plant"] != false {
+						env.Execve(ctx, container.ExecveParam{Args: plantArgs(i), Env: []string{"PATH=/usr/bin:/bin"}})
+					}
+					resetErr := ""
+					for k := int64(0); k < hx.Int(op["times"]); k++ {
+						if rerr := env.Reset(); rerr != nil {
+							opNote += "e"
+							resetErr = " failed: " + rerr.Error()
+						} else {
+							opNote += "o"
+						}
+					}
+					opNote += resetErr
 				case "open":
 					rs, _ := env.Open([]container.OpenCmd{{Path: "/w/r" + fmt.Sprint(i%7), Flag: os.O_CREATE | os.O_RDWR, Perm: 0600}, {Path: "/w/nodir/x", Flag: os.O_RDONLY}})
 					for _, x := range rs {
@@ -223,7 +338,23 @@ func main() {
 			if !okRet {
 				return map[string]any{"hang": fmt.Sprintf("operation %d (%s) did not return within 15 s", i, op["kind"]), "log": log}
 			}
-			log = append(log, fmt.Sprintf("%s:%d", op["kind"], int(res.Status)))
+			if opNote != "" {
+				log = append(log, fmt.Sprintf("%s:%s", op["kind"], opNote))
+			} else {
+				log = append(log, fmt.Sprintf("%s:%d", op["kind"], int(res.Status)))
+			}
+			hostTrace = append(hostTrace, nfds(os.Getpid())-1)
+			if envOp {
+				env.Ping()
+				n := nfds(container.InitPidVerif(env))
+				initTrace = append(initTrace, n)
+				if n != initBefore && len(initDev) < 5 {
+					initDev = append(initDev, map[string]any{"op_index": i, "op": op, "outcome": log[len(log)-1], "init_fds_baseline": base["init_fds"],
+						"init_fds_before_op": initBefore, "init_fds_after_op": n})
+				}
+			} else {
+				initTrace = append(initTrace, -1)
+			}
 			if env != nil && op["kind"] == "container" && (op["cb"] != nil || hx.Int(op["timeout_ms"]) < 1000) {
 				// right after a run that failed or was cut short: everything it started has been reaped by the init already
 				// (not only once a later run sweeps)
@@ -236,7 +367,8 @@ func main() {
 		}
 		time.Sleep(50 * time.Millisecond)
 		after := measure(env)
-		out := map[string]any{"base": base, "after": after, "log": log, "token_procs": tokenProcs(token), "left_after_run": leftAfterRun, "left_after_which": leftAfterWhich}
+		out := map[string]any{"base": base, "after": after, "log": log, "token_procs": tokenProcs(token), "left_after_run": leftAfterRun, "left_after_which": leftAfterWhich,
+			"elapsed_ms": time.Since(t0).Milliseconds(), "host_fds_trace": hostTrace, "init_fds_trace": initTrace, "init_fds_deviations": initDev}
 		if env != nil {
 			env.Destroy()
 		}
